@@ -11,11 +11,19 @@
 (*        ToString(n) (15.12.3 Str step 9), the specification's recogniser   *)
 (*        reads n from got (15.12.1) and back is n.                          *)
 (*   [kind |-> "str", id, s, got, back] likewise with Quote(s).              *)
+(*   [kind |-> "tree", id, v, gap, got, back] v: a JSON value tree drawn by   *)
+(*        the harness; got: JSON.stringify(v, null, gap); back: what          *)
+(*        JSON.parse(got) gave.  m = 1 iff got respells to the text 15.12.3   *)
+(*        prescribes, the recogniser reads v from it and back is v; m = 2 iff *)
+(*        the same holds for the specification with the open findings.        *)
 (* One verdict line per record.                                              *)
 EXTENDS NumText, Json, TLC
+CONSTANT OpenDev
 VARIABLES blk, cs
 
 J == INSTANCE JSONSpec WITH Dev <- {}
+L == INSTANCE JSONSpec WITH Dev <- OpenDev
+NoRp == [k |-> "none"]
 File == ndJsonDeserialize("trace.ndjson")
 
 RECURSIVE FirstEq(_, _, _)
@@ -29,6 +37,14 @@ Verdict(ev) ==
                      txt == IF IsFinite(ev.n) THEN NumToStr(ev.n) ELSE J!S_lit_null
                      val == IF ev.n = NZero THEN I(0) ELSE ev.n            \* ToString(-0) is "0"
                  IN  IF nrm.ok /\ nrm.s = txt /\ p.ok /\ p.v = NumV(val) /\ ev.back = NumV(val) THEN 1 ELSE 0)
+          [] ev.kind = "tree" ->
+                (LET es == J!Stringify(ev.v, NoRp, IntV(ev.gap))
+                     el == L!Stringify(ev.v, NoRp, IntV(ev.gap))
+                     ps == J!ParseText(ev.got)
+                     pl == L!ParseText(ev.got)
+                 IN  IF nrm.ok /\ nrm.s = es.s /\ ps.ok /\ ps.v = ev.v /\ J!ParsePermits(ev.got, ev.back) THEN 1
+                     ELSE IF nrm.ok /\ nrm.s \in {es.s, el.s} /\ pl.ok /\ J!EqModOrder(pl.v, ev.v) /\ L!ParsePermits(ev.got, ev.back) THEN 2
+                     ELSE 0)
           [] ev.kind = "str" ->
                 (LET p == J!ParseText(ev.got)
                  IN  IF nrm.ok /\ nrm.s = J!Quote(ev.s) /\ p.ok /\ p.v = StrV(ev.s) /\ ev.back = StrV(ev.s) THEN 1 ELSE 0)
